@@ -6,7 +6,8 @@
    object of every response, with and without injected faults, are compared with the reference
    (oracle c04_partial_holds: equal data without errors, a sub-tree of it with errors). *)
 From Coq Require Import String List Bool ZArith.
-From GW Require Import Base.Res Base.GoStr Base.Json Gw.Points Gw.Plan Gw.Scrub Proofs.CodecProofs Proofs.PointsProofs Proofs.FindProofs Proofs.ScrubProofs.
+From GW Require Import Base.Res Base.GoStr Base.Json Gw.Points Gw.Plan Gw.Scrub Proofs.CodecProofs Proofs.PointsProofs Proofs.FindProofs Proofs.ScrubProofs
+     Gql.Syntax Gql.Spec Proofs.StitchSound Proofs.JoinSound Proofs.StepJoin Proofs.StepScrub.
 Import ListNotations.
 Open Scope string_scope.
 Open Scope list_scope.
@@ -77,3 +78,16 @@ Example C04_nonvacuous :
   scrub_location "id" [FS "user" false false []] resp ["user"] =
     Ok (JObj [("user", JObj [("uid", JStr "1"); ("name", JStr "a")])]).
 Proof. vm_compute. reflexivity. Qed.
+
+(* After a dependent step, against the reference semantics.  The points of the step pairwise part
+   ways and each holds the reference answer to l1, the join id and l2 for its own object; the
+   client asked for no key id in l1 or l2.  Then the scrubber succeeds at every point and leaves
+   there exactly the reference answer to l1 and l2: the id the planner added is gone, every
+   requested key is still there, and scrubbing one point changes nothing at the others. *)
+Theorem C04_scrubbed_step_holds_the_requested_keys : forall w frags vars l1 l2,
+  good (l1 ++ [id_sel]) -> Forall plain l2 -> ~ In "id" (map key_of l2) ->
+  forall fuel ps os acc,
+  ForallOrdPairs diverge ps -> Forall2 (holds_joined w frags vars l1 l2 fuel acc) ps os ->
+  exists acc', scrub_points "id" acc ps = Ok acc' /\ Forall2 (holds_clean w frags vars l1 l2 fuel acc') ps os.
+Proof. intros w frags vars l1 l2 G P N fuel. exact (step_scrubbed w frags vars l1 l2 G P N fuel). Qed.
+Print Assumptions C04_scrubbed_step_holds_the_requested_keys.
